@@ -44,6 +44,27 @@ def obsSpecIds (firstOdd : Bool) (ids : List Int) : Bool :=
   let sent := ids.filter (· != 0)
   sent.all (fun i => decide (0 < i ∧ i < 2147483648) && (!firstOdd || i % 2 == 1)) && decide (sent.Nodup)
 
+/-! ### between two snapshots: who may be affected by one operation -/
+/-- `p before after` holds for every stream object that existed before (same position afterwards) -/
+def strsKeep (p : Nat → OStr → OStr → Bool) (before after : Obs) : Bool :=
+  (List.range before.strs.length).all (fun i => match before.strs[i]?, after.strs[i]? with
+    | some b, some a => p i b a
+    | _, _ => false)
+
+def sameOutcome (b a : OStr) : Bool := a.got == b.got && a.resets == b.resets
+
+/-- one frame with stream id `id` that left the connection open: stream objects registered under ANOTHER id keep their
+deliveries and their reset notifications (nobody is answered or failed by somebody else's frame) -/
+def frameStepSpec (id : Int) (before after : Obs) : Bool :=
+  strsKeep (fun _ b a => b.id == id || sameOutcome b a) before after
+
+/-- GOAWAY, SETTINGS, WINDOW_UPDATE, a new request: no existing stream object is answered or reset -/
+def quietStepSpec (before after : Obs) : Bool := strsKeep (fun _ b a => sameOutcome b a) before after
+
+/-- ResetStream of stream object `k` (`none`: a connection-wide reset / close): nobody is answered, and only `k` is reset -/
+def resetStepSpec (k : Option Nat) (before after : Obs) : Bool :=
+  strsKeep (fun i b a => a.got == b.got && (a.resets == b.resets || k == none || k == some i)) before after
+
 def partLabel (p : Part) : Int := p.fid
 
 def obsOf (s : Conn) : Obs :=
